@@ -478,3 +478,26 @@ def c11_r8(ctx):
     n = reconstruction_check(ctx, prog, classes, MRECON_OK)
     if n < 20:
         raise AnalysisError("only %d matcher re-construction sites found" % n)
+
+
+@rule("C11", "R9", "K10", "every attribute a matcher's cursor methods read is bound by the constructors that building it runs",
+      min_instances=30, also=("C01", "C09"),
+      clause="For every matcher class K: an attribute that only a base-class constructor binds, while K's own constructor chain "
+             "(K.__init__, the base constructors it calls, the self-methods those call) never runs that constructor, is not read by "
+             "any method reachable from K's public cursor methods -- else next()/score()/... raise AttributeError on a perfectly "
+             "well-formed matcher.")
+def c11_r9(ctx):
+    from .common import undefined_attribute_reads
+    prog = ctx.prog
+    n = 0
+    for cls in M.matcher_classes(prog):
+        n += 1
+        bad = undefined_attribute_reads(prog, cls)
+        by_attr = {}
+        for attr, f, line, entry in bad:
+            by_attr.setdefault(attr, []).append((f, line, entry))
+        ctx.ob(cls, not bad, "every attribute read by %s's methods is bound when a %s is constructed" % (cls.name, cls.name),
+               detail="; ".join("self.%s (read by %s)" % (a, ", ".join(sorted(set(x[0].name + "()" for x in v)))) for a, v in sorted(by_attr.items())) +
+                      (": bound only by a base constructor that %s.__init__ does not call" % cls.name if bad else ""), loc=cls.loc)
+    if n < 30:
+        raise AnalysisError("only %d matcher classes" % n)
